@@ -1,7 +1,8 @@
 //! Certificate reloader with file watching and hot reload support
 
-use crate::util::{AnyTlsError, CertificateInfo, Result, create_server_config_from_files};
+use crate::util::{AnyTlsError, CertificateInfo, Result};
 use notify::{Config, Event, EventKind, RecommendedWatcher, RecursiveMode, Watcher};
+use rustls::server::ServerConfig;
 use std::path::PathBuf;
 use std::sync::{Arc, RwLock};
 use std::time::{Duration, Instant};
@@ -39,6 +40,37 @@ impl Default for CertReloaderConfig {
     }
 }
 
+/// Read the certificate and key files once and derive both the TLS acceptor and the
+/// certificate information from the same bytes, so that an update of the files landing
+/// in the middle of a (re)load can never combine the acceptor of one certificate with
+/// the reported information (and expiry check) of another.
+fn load_pair(config: &CertReloaderConfig) -> Result<(Arc<TlsAcceptor>, Result<CertificateInfo>)> {
+    let cert_pem = std::fs::read(&config.cert_path).map_err(AnyTlsError::Io)?;
+    let certs = rustls_pemfile::certs(&mut cert_pem.as_slice())
+        .collect::<std::result::Result<Vec<_>, _>>()
+        .map_err(|e| AnyTlsError::Tls(format!("failed to parse certificate: {e}")))?;
+    if certs.is_empty() {
+        return Err(AnyTlsError::Tls(format!(
+            "no certificates found in {:?}",
+            config.cert_path
+        )));
+    }
+
+    let key_pem = std::fs::read(&config.key_path).map_err(AnyTlsError::Io)?;
+    let key = rustls_pemfile::private_key(&mut key_pem.as_slice())
+        .map_err(|e| AnyTlsError::Tls(format!("failed to parse private key: {e}")))?
+        .ok_or_else(|| {
+            AnyTlsError::Tls(format!("no private key found in {:?}", config.key_path))
+        })?;
+
+    let tls_config = ServerConfig::builder()
+        .with_no_client_auth()
+        .with_single_cert(certs, key)?;
+    let cert_info = CertificateInfo::from_pem_bytes(&cert_pem);
+
+    Ok((Arc::new(TlsAcceptor::from(Arc::new(tls_config))), cert_info))
+}
+
 /// Certificate reloader
 pub struct CertReloader {
     config: CertReloaderConfig,
@@ -51,12 +83,9 @@ pub struct CertReloader {
 impl CertReloader {
     /// Create a new certificate reloader
     pub fn new(config: CertReloaderConfig) -> Result<Self> {
-        // Load initial certificate
-        let tls_config = create_server_config_from_files(&config.cert_path, &config.key_path)?;
-        let tls_acceptor = Arc::new(TlsAcceptor::from(tls_config));
-
-        // Analyze certificate
-        let cert_info = CertificateInfo::from_pem_file(&config.cert_path).ok();
+        // Load initial certificate and analyze it (one read of each file)
+        let (tls_acceptor, cert_info) = load_pair(&config)?;
+        let cert_info = cert_info.ok();
 
         if let Some(ref info) = cert_info {
             info!(
@@ -119,13 +148,9 @@ impl CertReloader {
         let start = Instant::now();
         info!("[CertReloader] Reloading certificate...");
 
-        // Load new certificate
-        let new_config =
-            create_server_config_from_files(&self.config.cert_path, &self.config.key_path)?;
-        let new_acceptor = Arc::new(TlsAcceptor::from(new_config));
-
-        // Analyze new certificate
-        let new_cert_info = CertificateInfo::from_pem_file(&self.config.cert_path)?;
+        // Load new certificate and analyze it (one read of each file)
+        let (new_acceptor, new_cert_info) = load_pair(&self.config)?;
+        let new_cert_info = new_cert_info?;
 
         // Log changes
         if let Some(ref old_info) = *self.cert_info.read().unwrap() {
